@@ -316,3 +316,47 @@ class Floor:
         if nf == 0:
             self.ctx.require_count(label or (self.rule + " obligations"), n, at_least)
         return n
+
+
+# ----------------------------------------------------------------- partitioned linear systems
+def block_parts(e):
+    """`M[R, :][:, C]` -> (M, R, C)"""
+    if isinstance(e, ast.Subscript) and isinstance(e.value, ast.Subscript):
+        inner, outer = e.value, e.slice
+        if isinstance(outer, ast.Tuple) and len(outer.elts) == 2 and isinstance(outer.elts[0], ast.Slice) \
+                and outer.elts[0].lower is None and outer.elts[0].upper is None:
+            cols = outer.elts[1]
+            r = inner.slice
+            if isinstance(r, ast.Tuple) and len(r.elts) == 2 and isinstance(r.elts[1], ast.Slice) \
+                    and r.elts[1].lower is None and r.elts[1].upper is None:
+                r = r.elts[0]
+            elif isinstance(r, ast.Tuple):
+                return None
+            return inner.value, r, cols
+    return None
+
+
+def signed(e):
+    """(sign, expr) with leading negations stripped"""
+    s = 1
+    while True:
+        if isinstance(e, ast.UnaryOp) and isinstance(e.op, ast.USub):
+            s, e = -s, e.operand
+        elif isinstance(e, ast.BinOp) and isinstance(e.op, ast.Mult) and au.const(e.left) in (-1, -1.0):
+            s, e = -s, e.right
+        else:
+            return s, e
+
+
+def matvec(e):
+    """(sign, M, x) for  M.dot(x) / M @ x / M * x  with negations anywhere"""
+    s, e = signed(e)
+    if isinstance(e, ast.Call) and au.call_tail(e) == "dot" and isinstance(e.func, ast.Attribute) and len(e.args) == 1:
+        s1, m = signed(e.func.value)
+        s2, x = signed(e.args[0])
+        return s * s1 * s2, m, x
+    if isinstance(e, ast.BinOp) and isinstance(e.op, (ast.MatMult, ast.Mult)):
+        s1, m = signed(e.left)
+        s2, x = signed(e.right)
+        return s * s1 * s2, m, x
+    return None
